@@ -60,7 +60,10 @@ impl Db {
             }
             let Some(members) = self.route_sets.get(&s) else { continue };
             for m in members {
-                if m.contains('/') {
+                if let Some(verbatim) = m.strip_prefix('=') {
+                    // "=<name>": the server hands this member back as it is written in the object
+                    out.push(verbatim.to_string());
+                } else if m.contains('/') {
                     if !out.contains(m) {
                         out.push(m.clone());
                     }
